@@ -35,6 +35,10 @@ type apCase struct {
 	Cut     int    `json:"cut"`
 	Stop    int    `json:"stop"` // consumers stop taking and the run is cancelled after this many items
 	Cap     int    `json:"cap"`  // RPS tokens of the engine run
+	// computed by TLC with the cell (AmmoProviderMC!CaseBody); only used to pick the cells of the noseek fault
+	Entries  int  `json:"entries"`
+	Bounded  bool `json:"bounded"`
+	Expected int  `json:"expected"`
 }
 
 func apEntryName(j int) string { return fmt.Sprintf("e%d", j+1) }
